@@ -15,6 +15,8 @@ import (
 	"os/exec"
 	"path/filepath"
 	"regexp"
+	"runtime"
+	"strconv"
 	"strings"
 	"sync"
 	"time"
@@ -176,7 +178,7 @@ func Run(sources []string) ([]Transcript, error) {
 	drv.WriteString("\t}\n}\n")
 	_ = os.WriteFile(filepath.Join(dir, "main.go"), drv.Bytes(), 0o644)
 	_ = os.WriteFile(filepath.Join(dir, "go.mod"), []byte("module gcbatch\n\ngo 1.25.0\n"), 0o644)
-	build := exec.Command(goBin, "build", "-o", "drv", ".")
+	build := exec.Command(goBin, "build", buildJobs(), "-o", "drv", ".")
 	build.Dir = dir
 	build.Env = goEnv()
 	if b, err := build.CombinedOutput(); err != nil {
@@ -333,7 +335,7 @@ func RunModules(progs []map[string]string) ([]Transcript, error) {
 	_ = os.WriteFile(filepath.Join(dir, "go.mod"), []byte("module gcbatch\n\ngo 1.25.0\n"), 0o644)
 	_ = os.MkdirAll(filepath.Join(dir, "host"), 0o755)
 	_ = os.WriteFile(filepath.Join(dir, "host", "host.go"), []byte(HostSource), 0o644)
-	args := []string{"build", "-o", "bin/"}
+	args := []string{"build", buildJobs(), "-o", "bin/"}
 	for n, i := range missing {
 		for name, src := range progs[i] {
 			if name == "go.mod" {
@@ -432,4 +434,18 @@ func RunModules(progs []map[string]string) ([]Transcript, error) {
 	}
 	wg.Wait()
 	return out, nil
+}
+
+// buildJobs returns the -p flag of the go command: the shards of a check run at the same time, so each
+// build gets its share of the processors instead of all of them.
+func buildJobs() string {
+	shards, _ := strconv.Atoi(os.Getenv("VERIF_SHARDS"))
+	if shards < 1 {
+		shards = 1
+	}
+	p := runtime.NumCPU() / shards
+	if p < 1 {
+		p = 1
+	}
+	return fmt.Sprintf("-p=%d", p)
 }
